@@ -6,6 +6,10 @@
              progs per thread ((0 tuple) | (1 tuple) | (2 labels) | (3)), sched = thread ids in the order
              their critical sections (RLock / Lock) were granted, results per thread in program order,
              times per thread ((inv res) ...) = scheduler step counts at invocation and response
+         | (5 hmode names conscodes ops results n1 collected)  Collect through an unbuffered channel, paused
+             after its first sends while the operations ops[n1:] run in another goroutine (they only get
+             through if Collect does not hold the read lock any more); collected = what Collect delivered
+             ((values id) ..., a nil Metric as (() 999997))
          | (4 names progs results times)             a free-running race of real goroutines on a small
              program; times from an atomic logical clock (ticked before invocation and after response)
    op     := (0 v must lvs) | (1 v must labels) | (2 v must labels) | (3 v lvs) | (4 v labels)
@@ -42,13 +46,6 @@ Definition d_result (s : sx) : option result :=
   | SL [SZ 5; l] => match dL d_entry l with Some l => Some (RColl l) | None => None end
   | SL [SZ 6] => Some RView
   | _ => None
-  end.
-
-Fixpoint entries_eqb (a b : list entry) : bool :=
-  match a, b with
-  | [], [] => true
-  | x :: a', y :: b' => entry_eqb x y && entries_eqb a' b'
-  | _, _ => false
   end.
 
 Definition result_eqb (a b : result) : bool :=
@@ -97,6 +94,7 @@ Definition d_creq (names : list str) (s : sx) : option creq :=
   | SL [SZ 1; t] => match dL dStr t with Some t => Some (QDel t) | None => None end
   | SL [SZ 2; l] => match d_lbls l with Some l => Some (QPartial (sel_partial names [] [] l)) | None => None end
   | SL [SZ 3] => Some QReset
+  | SL [SZ 4] => Some QCollect
   | _ => None
   end.
 
@@ -226,6 +224,24 @@ Definition check (s : sx) : Z :=
           | _, _, _, _ => code_decode_error
           end
       | None => code_decode_error
+      end
+  | SL [SZ 5; SZ hm; nm; codes; ops; res; n1; coll] =>
+      match d_case (SL [SZ 0; SZ hm; nm; codes; ops; res]), dNat n1, dL d_entry coll with
+      | Some k, Some n1, Some coll =>
+          let cstr := mk_cstr (k_names k) (k_codes k) in
+          (* specification: the operations behave as on the plain map and the collected children are
+             exactly the children of ONE state the map passes through while Collect is in progress *)
+          let spec_good :=
+            spec_ok (k_names k) cstr init_sworld (k_ops k) (k_res k) &&
+            existsb (fun j => coll_ok (s_map (snd (spec_run (k_names k) cstr init_sworld (firstn (n1 + j) (k_ops k))))) coll)
+                    (seq 0 (S (length (k_ops k) - n1))) in
+          (* model: Collect holds the read lock until its last send, the other operations come after it *)
+          let model_good :=
+            results_eqb (model_results k) (k_res k) &&
+            entries_eqb (collect (w_st (snd (run fnv_offset64 (hmode_add hm) (hmode_addb hm) (k_names k) cstr
+                                             init_world (firstn n1 (k_ops k)))))) coll in
+          both spec_good model_good
+      | _, _, _ => code_decode_error
       end
   | SL [SZ 4; nm; progs; res; times] =>
       match dL dStr nm with
